@@ -39,6 +39,9 @@ func (x *Exec) builtin(fr *Frame, st *State, b *ssa.Builtin, sargs []ssa.Value, 
 		return x.appendModel(fr, st, sargs, args, resT)
 	case "copy":
 		return x.copyModel(fr, st, sargs, args, resT)
+	case "close":
+		x.chanClose(fr, st, args[0].Term, pos)
+		return nil
 	case "delete":
 		x.mapDelete(st, sargs[0].Type(), args[0].Term, x.coerce(args[1], under(sargs[0].Type()).(*types.Map).Key()))
 		return nil
